@@ -14,6 +14,12 @@
 (*                     hold under the run's name.                                                     *)
 (* So the demands of Attest / RangeProof are made of every run of a session with the parameters of   *)
 (* ITS format, whatever the nodes did in the runs before.                                             *)
+(* VALUES have a history too: the same attribute bytes are attested and scored under several formats  *)
+(* (hash modes) in one process. `refmode` records the hash mode every value was FIRST scored under    *)
+(* (certainty(value, aggregate) -> aggregate_reference(value)); the demand is that a candidate is     *)
+(* always scored by the profile of ITS hash under the verifier's format of THIS run (RefBy = "format",*)
+(* the repository). Deviation RefBy = "value" (negative control): the reference profile is kept per   *)
+(* value bytes in a place all formats share, so a later format meets the first format's profile.      *)
 (* The trace file holds sessions: [values |-> <<[sha256_4 |-> bits, sha256 |-> bits, sha512 |-> bits]>>, *)
 (* events |-> <<...>>]; the hash bits of every value under every mode are computed by the harness     *)
 (* with hashlib. Every event lists in `ns` the nodes that resolved the run's name while it happened.  *)
@@ -28,17 +34,19 @@
 EXTENDS SchemaNode, Integers, Sequences, Json, IOUtils, TLCExt
 
 CONSTANTS BitSpace, Honest,          \* Attest.tla (BitSpace unused here)
-          MaxV, Below, WidthOnly     \* RangeProof.tla (MaxV, Below unused here)
+          MaxV, Below, WidthOnly,    \* RangeProof.tla (MaxV, Below unused here)
+          RefBy                      \* "format": reference profile from the resolving format; "value": deviation
 
 VARIABLES bits, revealed, pending, answers, agg, done,      \* Attest.tla : the current exact run
           lo, hi, plo, phi, v, built, rounds, verdict,      \* RangeProof.tla : the current range run
           tid, l,                                           \* session, next event
-          rb                                                \* index of the N event of the current run (0: none)
+          rb,                                               \* index of the N event of the current run (0: none)
+          refmode                                           \* value index -> hash mode it was first scored under
 AT == INSTANCE Attest
 RP == INSTANCE RangeProof
 avars == <<bits, revealed, pending, answers, agg, done>>
 rvars == <<lo, hi, plo, phi, v, built, rounds, verdict>>
-svars == <<nvars, avars, rvars, tid, l, rb>>
+svars == <<nvars, avars, rvars, tid, l, rb, refmode>>
 
 Traces == JsonDeserialize(IOEnv.TRACE_FILE)
 SessionNodes == 1..3
@@ -53,7 +61,7 @@ ResetExact == /\ bits' = <<>> /\ revealed' = <<>> /\ pending' = {} /\ answers' =
 ResetRange == /\ lo' = 0 /\ hi' = 0 /\ plo' = 0 /\ phi' = 0 /\ v' = 0 /\ built' = "no" /\ rounds' = 0
               /\ verdict' = "none"
 
-TraceInit == /\ tid \in 1..Len(Traces) /\ l = 1 /\ rb = 0
+TraceInit == /\ tid \in 1..Len(Traces) /\ l = 1 /\ rb = 0 /\ refmode = <<>>
              /\ NodeInit /\ NoExact /\ NoRange
 
 (* all nodes of ns resolve `name` (get_id_algorithm(name)) during one step *)
@@ -81,8 +89,12 @@ Begin(e) ==
             /\ ResetExact
 
 HashOf(n) == Eff(n, Run.name).hash
+(* the hash mode whose bits give the reference profile candidate value c is compared with *)
+RefMode(c) == IF RefBy = "value" /\ c \in DOMAIN refmode THEN refmode[c] ELSE HashOf(Run.v)
 ExactStep(e) ==
     /\ ResolveAll(e.ns, Run.name)
+    /\ refmode' = IF e.op = "S" /\ Run.cands[e.c] \notin DOMAIN refmode
+                  THEN (Run.cands[e.c] :> HashOf(Run.v)) @@ refmode ELSE refmode
     /\ \/ /\ e.op = "Y" /\ UNCHANGED avars
        \/ /\ e.op = "A" /\ bits = <<>>
           /\ bits' = Values[Run.val][HashOf(Run.a)]              \* what an attester of THIS format attests
@@ -94,7 +106,7 @@ ExactStep(e) ==
        \/ /\ e.op = "P" /\ AT!Process(e.i)
           /\ agg' = [k \in 0..3 |-> e.agg[k + 1]]
        \/ /\ e.op = "S" /\ bits # <<>>                            \* scored by the hash of the VERIFIER's format
-          /\ AT!ScoreOK(Values[Run.cands[e.c]][HashOf(Run.v)], e.pos, e.s20) /\ UNCHANGED avars
+          /\ AT!ScoreOK(Values[Run.cands[e.c]][RefMode(Run.cands[e.c])], e.pos, e.s20) /\ UNCHANGED avars
        \/ /\ e.op = "H" /\ e.r = e.v /\ e.ok /\ UNCHANGED avars
        \/ /\ e.op = "K" /\ e.same /\ UNCHANGED avars
 
@@ -108,10 +120,10 @@ RangeStep(e) ==
 TraceNext ==
     /\ l <= Len(Ev)
     /\ LET e == Ev[l] IN
-         \/ /\ e.op = "G" /\ e.n \in Nodes /\ Register(e.n, e.name, e.fmt) /\ UNCHANGED <<avars, rvars, rb>>
-         \/ /\ e.op = "N" /\ Begin(e)
+         \/ /\ e.op = "G" /\ e.n \in Nodes /\ Register(e.n, e.name, e.fmt) /\ UNCHANGED <<avars, rvars, rb, refmode>>
+         \/ /\ e.op = "N" /\ Begin(e) /\ UNCHANGED refmode
          \/ /\ e.op \notin {"G", "N"} /\ rb > 0 /\ Run.kind = "exact" /\ ExactStep(e) /\ UNCHANGED <<rvars, rb>>
-         \/ /\ e.op \notin {"G", "N"} /\ rb > 0 /\ Run.kind = "range" /\ RangeStep(e) /\ UNCHANGED <<avars, rb>>
+         \/ /\ e.op \notin {"G", "N"} /\ rb > 0 /\ Run.kind = "range" /\ RangeStep(e) /\ UNCHANGED <<avars, rb, refmode>>
     /\ l' = l + 1 /\ UNCHANGED tid
 
 TraceSpec == TraceInit /\ [][TraceNext]_svars
@@ -129,4 +141,6 @@ RangeTypeOK         == InRange => RP!TypeOK
 RangeInsideBuilds   == InRange => RP!InsideBuilds
 RangeInsideAccepted == InRange => RP!InsideAccepted
 RangeOutsideNever   == InRange => RP!OutsideNeverAccepted
+(* every value that was scored was first scored under a hash mode some format of the session has *)
+RefTypeOK == \A c \in DOMAIN refmode : c \in 1..Len(Values) /\ refmode[c] \in DOMAIN Values[c]
 =============================================================================
